@@ -115,8 +115,25 @@ CID count per multihash:%s
 	)
 }
 
+// furthestReaderAt records the end of the furthest read served.
+type furthestReaderAt struct {
+	io.ReaderAt
+	furthest int64
+}
+
+func (f *furthestReaderAt) ReadAt(p []byte, off int64) (int, error) {
+	n, err := f.ReaderAt.ReadAt(p, off)
+	if end := off + int64(n); end > f.furthest {
+		f.furthest = end
+	}
+	return n, err
+}
+
 func InspectCar(inStream *os.File, verifyHashes bool) (*Report, error) {
-	rd, err := carv2.NewReader(inStream, carv2.ZeroLengthSectionAsEOF(true))
+	// The reader works through ReadAt and never moves the file's own cursor, so remember how far
+	// into the file it got.
+	tracked := &furthestReaderAt{ReaderAt: inStream}
+	rd, err := carv2.NewReader(tracked, carv2.ZeroLengthSectionAsEOF(true))
 	if err != nil {
 		return nil, err
 	}
@@ -126,7 +143,7 @@ func InspectCar(inStream *os.File, verifyHashes bool) (*Report, error) {
 	}
 
 	if stats.Version == 1 && verifyHashes { // check that we've read all the data
-		got, err := inStream.Read(make([]byte, 1)) // force EOF
+		got, err := inStream.ReadAt(make([]byte, 1), tracked.furthest) // force EOF
 		if err != nil && err != io.EOF {
 			return nil, err
 		} else if got > 0 {
